@@ -29,6 +29,12 @@ ASSUMPTIONS = ['numerical-library thread counts fixed at 1 (OMP/OPENBLAS/MKL_NUM
                'one machine, one BLAS build: cross-platform reproducibility is out of reach',
                'crashes of run() are left to C08']
 BUDGET = {'quick': 0, 'thorough': 0}
+CORPUS = 'pipeline'
+
+
+def from_corpus(case):
+    return dict(case, rng=[20240517, 3, 1], history=['draw', 'tmp_seed_raise', 'run_other'],
+                other_rows=[['a', -10.0, 1000.0, 1], ['a', -5.0, 1010.0, 1]])
 CASES = {'quick': 176, 'thorough': 3200}
 WEIGHTS = {'split_candidate': 8, 'layered': 3, 'merge_chain': 2, 'ref_window': 2, 'degenerate': 1}
 HIST_OPS = ['draw', 'run_other', 'demo', 'tmp_seed_raise', 'default_rng', 'legacy_seed']
